@@ -46,9 +46,27 @@ type TierCfg struct {
 	MaxConcretize  int            `json:"max_concretize"`
 	Preempt        int            `json:"preempt"`
 	Params         map[string]int `json:"params"`
+	MaxInstrs      int64          `json:"max_instrs"`
+	// SizesFromCode: run the harness once per size derived from the code under test, see
+	// interp.CodeSizeConstants; the size is handed to the harness as parameter Param
+	SizesFromCode *SizesCfg `json:"sizes_from_code"`
 	Skip           bool           `json:"skip"`
 	Validate       int            `json:"validate"`          // passing paths replayed natively
 	PathCapIsBound bool           `json:"path_cap_is_bound"` // reaching max_paths is a stated bound, not a problem
+}
+
+// SizesCfg: the sizes are Default plus, for every harvested constant c, the values
+// c-1, c, c+1 and 2c+1 times each factor in Scale (default [1]) - a harness whose parameter
+// counts paths while the threshold may count list entries gives Scale [1,2]. Sizes above Cap
+// are dropped (reported under bounds_exceeded).
+type SizesCfg struct {
+	Param   string   `json:"param"`
+	Pkgs    []string `json:"pkgs"`
+	Lo      int      `json:"lo"`
+	Hi      int      `json:"hi"`
+	Cap     int      `json:"cap"`
+	Default []int    `json:"default"`
+	Scale   []int    `json:"scale"`
 }
 
 type HarnessCfg struct {
@@ -85,6 +103,8 @@ func main() {
 			os.Exit(2)
 		}
 		os.Exit(cmdCheck(os.Args[2], os.Args[3]))
+	case "sizes":
+		os.Exit(cmdSizes(os.Args[2:]))
 	case "run":
 		os.Exit(cmdRun(os.Args[2:]))
 	default:
@@ -326,6 +346,63 @@ func cmdCheck(id, tier string) int {
 	boundsExceeded := map[string]int{}
 	unknownBranches := 0
 
+	// expand size-driven harnesses: one run per size derived from the code under test
+	var expanded []HarnessCfg
+	var sizeNotes []string
+	for _, hc := range cfg.Harnesses {
+		tc, ok := hc.Tiers[tier]
+		if !ok {
+			tc = hc.Tiers["quick"]
+		}
+		sc := tc.SizesFromCode
+		if sc == nil || tc.Skip {
+			expanded = append(expanded, hc)
+			continue
+		}
+		consts := eng.CodeSizeConstants(sc.Pkgs, sc.Lo, sc.Hi)
+		scale := sc.Scale
+		if len(scale) == 0 {
+			scale = []int{1}
+		}
+		sizes := map[int]string{}
+		for _, d := range sc.Default {
+			sizes[d] = "default size"
+		}
+		for _, c := range consts {
+			for _, f := range scale {
+				for _, n := range []int{c.Value*f - 1, c.Value * f, c.Value*f + 1, 2*c.Value*f + 1} {
+					if n > sc.Cap {
+						boundsExceeded[fmt.Sprintf("%s: size %d derived from constant %d at %s is above the cap %d and is not run", hc.Func, n, c.Value, c.Where, sc.Cap)]++
+						continue
+					}
+					if _, ok := sizes[n]; !ok && n > 0 {
+						sizes[n] = fmt.Sprintf("from constant %d at %s", c.Value, c.Where)
+					}
+				}
+			}
+		}
+		var order []int
+		for n := range sizes {
+			order = append(order, n)
+		}
+		sort.Ints(order)
+		sizeNotes = append(sizeNotes, fmt.Sprintf("%s: %d size constants harvested from %v (integer constants in [%d,%d] that meet a length); sizes run for parameter %q: %v", hc.Func, len(consts), sc.Pkgs, sc.Lo, sc.Hi, sc.Param, order))
+		for _, n := range order {
+			c := hc
+			c.Tiers = map[string]TierCfg{}
+			t2 := tc
+			t2.SizesFromCode = nil
+			t2.Params = map[string]int{}
+			for k, v := range tc.Params {
+				t2.Params[k] = v
+			}
+			t2.Params[sc.Param] = n
+			c.Tiers[tier] = t2
+			c.About = fmt.Sprintf("%s [%s = %d, %s]", hc.About, sc.Param, n, sizes[n])
+			expanded = append(expanded, c)
+		}
+	}
+	cfg.Harnesses = expanded
 	for _, hc := range cfg.Harnesses {
 		tc, ok := hc.Tiers[tier]
 		if !ok {
@@ -336,6 +413,11 @@ func cmdCheck(id, tier string) int {
 		}
 		if tc.Skip {
 			continue
+		}
+		if tc.MaxInstrs > 0 {
+			eng.MaxInstrs = tc.MaxInstrs
+		} else {
+			eng.MaxInstrs = 20_000_000
 		}
 		if tc.MaxStrLen > 0 {
 			eng.MaxStrLen = tc.MaxStrLen
@@ -597,7 +679,7 @@ func cmdCheck(id, tier string) int {
 	cov["inconclusive"] = inconclusive
 	cov["functions_encoded"] = fnList
 	cov["stubs_hit"] = stubList
-	cov["bounds"] = cfg.Bounds
+	cov["bounds"] = append(append([]string{}, cfg.Bounds...), sizeNotes...)
 	cov["outside_claim"] = cfg.Outside
 	cov["bounds_exceeded"] = boundsExceeded
 	cov["unknown_branches_kept"] = unknownBranches
@@ -863,5 +945,25 @@ func cmdRun(args []string) int {
 	hr.Funcs = nil
 	jb, _ := json.MarshalIndent(hr, "", " ")
 	fmt.Println(string(jb))
+	return 0
+}
+
+// ---------------------------------------------------------------- sizes (debug)
+
+// cmdSizes prints the size constants CodeSizeConstants harvests: gosymx sizes <pattern> <pkg prefix>...
+func cmdSizes(args []string) int {
+	ov, _, err := buildOverlay("sizes")
+	if err != nil {
+		fmt.Fprintln(os.Stderr, err)
+		return 2
+	}
+	eng, err := interp.Load(repoDir, []string{args[0]}, ov, "verif")
+	if err != nil {
+		fmt.Fprintln(os.Stderr, err)
+		return 2
+	}
+	for _, c := range eng.CodeSizeConstants(args[1:], 4, 4096) {
+		fmt.Printf("%d\t%s\n", c.Value, c.Where)
+	}
 	return 0
 }
